@@ -22,6 +22,7 @@ const (
 	FWide   = "wide"   // 70..200 pairs, integer values (several batches at size 32)
 	FTies   = "ties"   // few distinct values, many duplicates
 	FRel    = "rel"    // values derived from their keys (upper(k), k, k+k, strlen(k), ...)
+	FJSON   = "json"   // every value is a JSON document (nested objects, arrays of objects)
 )
 
 type Store struct {
@@ -108,6 +109,12 @@ func NewStore(r *rt.Rand, family string) *Store {
 				v = jsonVals[r.Intn(len(jsonVals))]
 			}
 			ps = append(ps, Pair{K: numKey(r), V: v})
+		}
+	case FJSON:
+		docs := append([]string{`{"x":3,"y":"w","o":{"y":"q","z":[1,2]},"list":[{"a":1},{"a":2}]}`, `{"x":"7","y":"","o":{},"list":[]}`, `{"x":4,"y":"s","o":{"y":"deep","o":{"y":"deeper"}},"list":[1,2,3]}`}, jsonVals[:4]...)
+		n := r.Range(2, 40)
+		for i := 0; i < n; i++ {
+			ps = append(ps, Pair{K: numKey(r), V: docs[r.Intn(len(docs))]})
 		}
 	case FBinary:
 		pool := []string{"\x00", "a\x00b", "\xff", "a\xff", "it's", `say "hi"`, "\xc3\x28", "caf\xc3\xa9", "`bt`", "a b", "\t", "a\nb", "~", "}", "\xff\xff"}
